@@ -66,7 +66,7 @@ PropAccept(q, Z, m, ok, v) ==
   \* "the shipped value" is the LAST one: a later record supersedes an earlier one, as in every data file of this kind.
   LET recs == IF q \in OccQ THEN OccRecords(q, Z, m) ELSE Records(q, Z, m)
       n == Len(recs)
-  IN IF n = 0 \/ ~FPos(F(recs[n])) THEN ~ok
+  IN IF n = 0 \/ ~FPos(F(recs[n])) THEN ~ok /\ FEq(v, Zero)          \* "an error, never a number": the 0 sentinel comes with the error
      ELSE ok /\ FClose(v, QConv(q, F(recs[n])), Tol11, Zero)
 
 PropWant(q, Z, m) ==
